@@ -17,6 +17,7 @@ import ALV.Lemmas.C11Float
 import ALV.Lemmas.C11Call
 import ALV.Lemmas.C11LevFloat
 import ALV.Lemmas.C11Round4
+import ALV.Model.C11Apply
 import Mathlib.Tactic.Linarith
 import ALV.Common.Audit
 
@@ -938,6 +939,90 @@ theorem call_roundtrip_shifted (s numLo denLo : Int) (num den ks : List K)
   rw [call_shift] at h
   exact call_roundtrip numLo denLo num den ks h
 
+/-! ### 14. round 4 — the call expression: binding of the parameter, object kinds, WHEN it raises -/
+
+/-- **C11.14a** Python's binding of the one parameter succeeds exactly for one positional argument
+and no keyword, or no positional argument and the one keyword `p`. -/
+theorem bind1_some_iff {β : Type} (p : String) (args : List β) (kwargs : List (String × β)) (o : β) :
+    bind1 p args kwargs = some o ↔ (args = [o] ∧ kwargs = []) ∨ (args = [] ∧ kwargs = [(p, o)]) := by
+  unfold bind1
+  split
+  · simp
+  · rename_i k a
+    by_cases hk : k = p
+    · simp [hk]
+    · simp only [hk, if_false]
+      constructor
+      · intro h; cases h
+      · rintro (⟨h1, _⟩ | ⟨_, h2⟩)
+        · cases h1
+        · simp only [List.cons.injEq, Prod.mk.injEq, and_true] at h2
+          exact absurd h2.1 hk
+  · rename_i h1 h2
+    constructor
+    · intro h; cases h
+    · rintro (⟨ha, hk⟩ | ⟨ha, hk⟩)
+      · exact (h1 o ha hk).elim
+      · exact (h2 p o ha hk).elim
+
+/-- **C11.14b** positional = keyword: `parcor(o)` is `parcor(fir_filt=o)`, `parcor_stable(o)` is
+`parcor_stable(filt=o)`, for every kind of object. -/
+theorem apply_positional_eq_keyword (o : ArgObj K) :
+    parcorApply [o] [] = parcorApply [] [("fir_filt", o)] := rfl
+
+theorem stableApply_positional_eq_keyword {L : Type} [Field L] [LinearOrder L] [DecidableEq L]
+    (o : ArgObj L) : stableApply [o] [] = stableApply [] [("filt", o)] := rfl
+
+/-- **C11.14c** `parcor` is a generator function: the call expression itself raises ONLY the binding
+`TypeError`, and exactly when the binding fails; every other exception waits for the first `next()`. -/
+theorem parcorApply_atCall_iff (args : List (ArgObj K)) (kwargs : List (String × ArgObj K)) (e : Exc) :
+    parcorApply args kwargs = .atCall e ↔ e = .typeError ∧ bind1 "fir_filt" args kwargs = none := by
+  unfold parcorApply
+  generalize bind1 "fir_filt" args kwargs = b
+  rcases b with _ | (⟨nl, n, dl, d⟩ | _ | _ | _)
+  · simp only [ApplyRes.atCall.injEq, and_true]; exact eq_comm
+  · simp only []
+    cases parcorCall nl n dl d <;> simp
+  all_goals simp
+
+/-- **C11.14d** on a filter the call expression is the call of section 10 (drained); `ParCorError`
+comes only out of the loop, after a yielded `k² = 1`, whatever was passed and however. -/
+theorem parcorApply_filt (numLo denLo : Int) (num den : List K) :
+    parcorApply [ArgObj.filt numLo num denLo den] [] =
+      match parcorCall numLo num denLo den with
+      | .valueError => .atNext .valueError
+      | .zeroDiv => .atNext .zeroDivisionError
+      | .ok ks b => .gen ks b := rfl
+
+theorem parcorApply_parcorError_only_critical (args : List (ArgObj K))
+    (kwargs : List (String × ArgObj K)) (ks : List K)
+    (h : parcorApply args kwargs = .gen ks true) : ∃ k ∈ ks, k * k = 1 := by
+  unfold parcorApply at h
+  generalize bind1 "fir_filt" args kwargs = b at h
+  rcases b with _ | (⟨nl, n, dl, d⟩ | _ | _ | _)
+  · cases h
+  · simp only [] at h
+    cases hc : parcorCall nl n dl d with
+    | valueError => rw [hc] at h; cases h
+    | zeroDiv => rw [hc] at h; cases h
+    | ok ks' b =>
+      rw [hc] at h
+      simp only [ApplyRes.gen.injEq] at h
+      rw [h.1, h.2] at hc
+      exact call_parcorError_only_critical nl dl n d ks hc
+  all_goals cases h
+
+/-- **C11.14e** `parcor_stable(…)` on a filter, positional or keyword: `True` exactly when every root of
+the shifted denominator (complex) lies strictly inside the unit circle. -/
+theorem stableApply_iff_poles (numLo denLo : Int) (num den : List ℝ) (h : shiftedDen den ≠ []) :
+    stableApply [] [("filt", ArgObj.filt numLo num denLo den)] = .verdict true ↔
+      ∀ z : ℂ, evalC (shiftedDen den).reverse z = 0 → Complex.normSq z < 1 := by
+  rw [← stableCall_iff_poles numLo denLo num den h]
+  show (match stableCall numLo num denLo den with
+      | none => ApplyRes.atCall Exc.valueError
+      | some b => ApplyRes.verdict b) = _ ↔ _
+  cases stableCall numLo num denLo den <;> simp
+
 /-! ### non-vacuity -/
 example : parcorStableCoded ([2, -1] : List Rat) = false := by decide +kernel
 example : parcorStableSpec (fromPoles (3 : ℝ) [1/2, -3/4] [(0, 1/2), (3/5, 3/5)]) = true := by
@@ -1027,6 +1112,18 @@ example : parcorFixed ([3, 3/2, 1/2] : List Rat) = ([1/6, 3/7], false) ∧
 example : parcorCall (-2) ([0, 3, 3/2, 1/2] : List Rat) (-2) [0, 5] = .ok [1/6, 3/7] false ∧
     causalPart ((-2 : Int) - ((-2 : Int) + ((leadZeros ([0, 5] : List Rat) : Nat) : Int))) ([0, 3, 3/2, 1/2] : List Rat)
       = [3, 3/2, 1/2] := by decide +kernel
+
+-- section 14
+example : parcorApply [ArgObj.filt 0 ([2, 1] : List Rat) 0 [5]] [] = .gen [1/2] false := by decide +kernel
+example : parcorApply [] [("filt", ArgObj.filt 0 ([2, 1] : List Rat) 0 [5])] = .atCall .typeError := by
+  decide +kernel
+example : parcorApply [ArgObj.filt 0 ([1, 1/2] : List Rat) 0 [1, 1/2]] [] = .atNext .valueError := by
+  decide +kernel
+example : stableApply [] [("filt", ArgObj.filt 0 ([2, 1] : List Rat) (-1) [1, 1/2])] = .verdict true := by
+  decide +kernel
+example : stableApply [(ArgObj.rational : ArgObj Rat)] [] = .atCall .attributeError := by decide +kernel
+example : parcorApply [(ArgObj.rational : ArgObj Rat)] [] = .atNext .typeError := by decide +kernel
+example : parcorApply [ArgObj.filt 0 ([2, 5, 2] : List Rat) 0 [1]] [] = .gen [1] true := by decide +kernel
 
 end ALV.Props.C11
 
